@@ -189,3 +189,32 @@ func VerifC01Sandwich() {
 	c01roundtrip(s, "sandwich")
 	zz.Reach("end")
 }
+
+// VerifC03Rewrite: histories that write a value more than once with changes in between: write, add a track,
+// write again; read a file, add a track, write. The header must always announce the tracks that follow.
+func VerifC03Rewrite() {
+	s := genSMF(3)
+	s.Add(genTrack("a", 1, 2, 127))
+	var first bytes.Buffer
+	_, err := s.WriteTo(&first)
+	zz.Assert(err == nil, "rewrite:first-write-ok")
+	if zz.Choice("via-read", 2) == 1 {
+		s2, rerr, panicked := c02read(first.Bytes())
+		zz.Assert(!panicked && rerr == nil, "rewrite:read-ok")
+		if panicked || rerr != nil {
+			return
+		}
+		s = s2
+	}
+	s.Add(genTrack("b", 1, 2, 127))
+	var second bytes.Buffer
+	n, err2 := s.WriteTo(&second)
+	zz.Assert(err2 == nil && n == int64(second.Len()), "rewrite:second-write-ok")
+	ref := refDecode(second.Bytes(), refOpts{strict: true})
+	zz.Assert(ref.ok, "rewrite:strict-parser-accepts-second-write")
+	if ref.ok {
+		zz.Assert(ref.ntrks == 2 && len(ref.tracks) == 2, "rewrite:header-announces-both-tracks")
+		c02compare(s, ref, "rewrite")
+	}
+	zz.Reach("end")
+}
